@@ -3,45 +3,23 @@
    task_set.h / thread_pool.h (tie: GenTie/TaskSetGenTie.v).  The ghost field [cst] of a set is the clock of its first canceled_ := true
    store (cancel(), a parent's cascade, or the store at the end of trySetCurrentException; -1 when cancelled before the run); a frame at a
    body call site carries the clock [lic] of the canceled_ load that licensed it.
-   The property is FALSE of the code as written (C04_refuted) and holds on the complement of that finding's domain (C04_holds_except). *)
+   History: the second inline fallback of ConcurrentTaskSet::schedule / schedulePlaced used to call f() without consulting canceled()
+   (former C04_refuted); repaired in /repo by "fix: ConcurrentTaskSet::schedule / schedulePlaced second inline fallback consults
+   canceled()"; the former witnesses are the regression Examples below and regression cases of props/C04.py. *)
 From Coq Require Import ZArith List Bool.
 From DV Require Import Base.MachInt Base.Sched Model.TaskSetModel Model.TaskSetCheck Gen.GenTaskSet GenTie.TaskSetGenTie Proofs.TaskSetProofs Proofs.TaskSetMoreProofs.
 Import ListNotations.
 Local Open Scope Z_scope.
 
-(* The full statement: at every body call site of T the thread holds a licence: a canceled_ load of T that read false and precedes the
-   first canceled_ := true store of T (if any). *)
-Definition C04_full_statement : Prop :=
-  forall u s th f T site, reach step1 (init u) s -> In th (threads s) -> In f (stk th) -> body_point f = Some (T, site) ->
-  exists L, lic_of f = Some (T, L) /\ 0 < L <= clock (sh s) /\ (cst (sets (sh s) T) = 0 \/ L < cst (sets (sh s) T)).
-
-(* It is FALSE: ConcurrentTaskSet::schedule(f) after cancel() returned, with workRemaining_ = 40 > poolLoadFactor_ = 32, reaches the call
-   site of the second inline fallback (site 6 = cts.schedule.inline2.body) with canceled_ = true, without licence, and the calling
-   thread has already logged the return of cancel(). *)
-Theorem C04_refuted :
-  exists s th k b rest, reach step1 (init c04_witness) s /\ In th (threads s) /\ stk th = FRawPt 0 k b 6 0 true :: rest /\
-    canc (sets (sh s) 0) = true /\ 0 < cst (sets (sh s) 0) /\ In (t_c, 0, cst (sets (sh s) 0)) (res th) /\
-    lic_of (FRawPt 0 k b 6 0 true) = None.
-Proof. exact c04_refuted_reach. Qed.
-Print Assumptions C04_refuted.
-
-(* It HOLDS everywhere else: at every body call site other than the two second-inline-fallback sites (6 = cts.schedule.inline2.body,
-   9 = cts.placed.inline2.body) -- TaskSet::schedule inline and queued, the packaged wrappers wherever they run, the first inline path of
-   ConcurrentTaskSet::schedule / schedulePlaced, invokeInline of the bulk paths -- the licence exists and precedes the cancel store. *)
-Theorem C04_holds_except : forall u s th f T site,
-  reach step1 (init u) s -> In th (threads s) -> In f (stk th) -> body_point f = Some (T, site) -> site <> 6 -> site <> 9 ->
+(* no_body_after_cancel, unrestricted: at EVERY body call site of T (TaskSet::schedule inline, both inline paths of ConcurrentTaskSet::schedule /
+   schedulePlaced, the packaged wrappers wherever they run, invokeInline of the bulk paths) the thread holds a licence: a canceled_ load of T
+   that read false and precedes the first canceled_ := true store of T (if any) -- every reachable state of every program, all interleavings.
+   So no body of T begins after the cancel store (hence after cancel() returned) unless the load that licensed it preceded that store. *)
+Theorem C04_no_body_after_cancel : forall u s th f T site,
+  reach step1 (init u) s -> In th (threads s) -> In f (stk th) -> body_point f = Some (T, site) ->
   exists L, lic_of f = Some (T, L) /\ 0 < L <= clock (sh s) /\ (cst (sets (sh s) T) = 0 \/ L < cst (sets (sh s) T)).
 Proof. exact no_body_after_cancel. Qed.
-Print Assumptions C04_holds_except.
-
-(* the excepted sites are reached exactly in the finding's domain: pool overloaded, !skipRecheck, canInlineSchedule (c04_domain with the
-   cancelled flag left open) *)
-Theorem C04_inline2_only_in_domain : forall s th T k b skip placed rest c s' T' k' b' site lic g rest' e,
-  step_top s th (FCsPool T k b skip placed) rest c = Some (s', FRawPt T' k' b' site lic g :: rest', e) ->
-  negb skip && dec_overloaded (tpool th) (wr s) (nthr s) (plf s) (prlf s) && can_inline th rest = true /\
-  (site = 6 \/ site = 9) /\ lic = 0 /\ T' = T /\ s' = s.
-Proof. exact inline2_only_in_domain. Qed.
-Print Assumptions C04_inline2_only_in_domain.
+Print Assumptions C04_no_body_after_cancel.
 
 (* the flag and the ghost stamp agree in every reachable state: canceled_ is false iff no store happened, and it never goes back *)
 Theorem C04_cancel_stamp : forall u s T, reach step1 (init u) s ->
@@ -49,27 +27,48 @@ Theorem C04_cancel_stamp : forall u s T, reach step1 (init u) s ->
 Proof. exact cancel_stamp. Qed.
 Print Assumptions C04_cancel_stamp.
 
-(* decision level, on the REGENERATED code: TaskSet::schedule reaches the functor (raw or packaged) only if canceled() read false;
-   ConcurrentTaskSet::schedule / schedulePlaced call the raw functor on a cancelled set exactly in the finding's domain *)
+(* decision level, on the REGENERATED code, all sites: TaskSet::schedule reaches the functor (raw or packaged) only if canceled() read false;
+   ConcurrentTaskSet::schedule / schedulePlaced (kLightweight and kHeavy, both inline paths) call the raw functor only if canceled() read
+   false; on a cancelled set the decision is skip (TaskSet) or hand the packaged wrapper -- which skips the body -- to the pool *)
 Theorem C04_decide_inline_implies_not_cancelled_tsk : forall out lf canc ci skip recursive w n plf l2 cost,
   gen_tsk_schedule out lf canc ci skip recursive w n plf l2 cost <> 0 -> canc = false.
 Proof. exact tsk_decide_inline_implies_not_cancelled. Qed.
 Print Assumptions C04_decide_inline_implies_not_cancelled_tsk.
 Theorem C04_decide_inline_implies_not_cancelled_cts : forall out lf canc ci skip recursive w n plf l2 cost,
-  gen_cts_schedule out lf canc ci skip recursive w n plf l2 cost = 1 ->
-  c04_domain true false skip ci (dec_overloaded recursive w n plf l2) canc = false -> canc = false.
+  gen_cts_schedule out lf canc ci skip recursive w n plf l2 cost = 1 -> canc = false.
 Proof. exact cts_decide_inline_implies_not_cancelled. Qed.
 Print Assumptions C04_decide_inline_implies_not_cancelled_cts.
-Theorem C04_refuted_decision :
-  gen_cts_schedule 0 4 true true false false 40 1 32 3 c_kLightweight = 1 /\ gen_cts_schedule 0 4 true true false false 40 1 32 3 c_kHeavy = 1.
-Proof. exact c04_decision_witness. Qed.
-Print Assumptions C04_refuted_decision.
+Theorem C04_cancelled_decision_never_raw : forall out lf canc ci skip recursive w n plf l2 cost, canc = true ->
+  gen_tsk_schedule out lf canc ci skip recursive w n plf l2 cost = 0 /\ gen_cts_schedule out lf canc ci skip recursive w n plf l2 cost <> 1.
+Proof. exact cancelled_decision_never_raw. Qed.
+Print Assumptions C04_cancelled_decision_never_raw.
 
-(* non-vacuity of the positive theorem: a force-queued task of a set that is cancelled before a worker dequeues it is skipped (ledger LSkip),
-   its body never starts *)
+Definition C04_full_statement : Prop :=
+  forall u s th f T site, reach step1 (init u) s -> In th (threads s) -> In f (stk th) -> body_point f = Some (T, site) ->
+  exists L, lic_of f = Some (T, L) /\ 0 < L <= clock (sh s) /\ (cst (sets (sh s) T) = 0 \/ L < cst (sets (sh s) T)).
+
+(* regression (former decision-level witness, harness case 'D 1 0 0 1 40 0 1 0 0 3 4 0'): cancelled, workRemaining_ 40 > poolLoadFactor_ 32 *)
+Example C04_regression_decision :
+  gen_cts_schedule 0 4 true true false false 40 1 32 3 c_kLightweight = 15 /\ gen_cts_schedule 0 4 true true false false 40 1 32 3 c_kHeavy = 16.
+Proof. exact c04_decision_regression. Qed.
+(* regression (former lockstep witness 'L 30 ; P 1 32 40 3 ; S 1 0 4 -1 0 ; T 0 0 : c 0 s 0 0 0 [ ] ; X 0 ...'): cancel store, outstanding load,
+   canceled load (true), packageTask increment; the wrapper is queued, no body event *)
+Example C04_regression_lockstep :
+  let '(s, tr, st) := run_ts 20 c04_witness [0; 0; 0; 0; 0; 0; 0; 0] in
+  st = SDone /\ map snd tr = [0; sc 42 0; sc 4 0; sc 1 0; sc 10 0] /\ length (queue (sh s)) = 1%nat /\ ledger (sh s) 1 = LPend 0 /\
+  existsb (fun e => fst (fst e) =? t_b) (res (nth 0 (threads s) (TH [] [] false 0))) = false.
+Proof. exact c04_regression. Qed.
+
+(* non-vacuity: a force-queued task of a set that is cancelled before a worker dequeues it is skipped (ledger LSkip), its body never starts;
+   and a licensed body exists: second inline fallback on a NON-cancelled overloaded set runs the functor with a licence *)
 Example C04_nonvacuous :
   let u := SU [TC true false 4 []] [] 0 1 32 3 0 [] [([OSched 0 true false []; OCancel 0; OWorker], false, 0)] in
   let '(s, tr, st) := run_ts 40 u [0;0;0;0;0;0;0;0;0;0;0;0] in
   st = SDone /\ ledger (sh s) 1 = LSkip 0 /\ canc (sets (sh s) 0) = true /\
   existsb (fun e => fst (fst e) =? t_b) (res (nth 0 (threads s) (TH [] [] false 0))) = false.
+Proof. vm_compute. repeat split; reflexivity. Qed.
+Example C04_nonvacuous_inline2 :
+  let u := SU [TC true false 4 []] [] 40 1 32 3 0 [] [([OSched 0 false false []], false, 0)] in
+  let '(s, tr, st) := run_ts 40 u [0;0;0;0;0;0;0;0] in
+  st = SDone /\ map snd tr = [0; sc 4 0; sc 1 0; sc 6 0] /\ ledger (sh s) 1 = LDone 0.
 Proof. vm_compute. repeat split; reflexivity. Qed.
